@@ -225,6 +225,8 @@ partial def traverse (t : Nat) : M Unit := do
   | "PLD" => do
     match g.s.pos t with
     | some p =>
+      if e.arg 0 == locName (.next p) then
+        P.fail s!"expected LD {e.arg 0} … 1 [rcu_dereference], got a PLAIN load of the forward pointer"
       if p == 0 || e.arg 0 != locName (.data p) then P.fail s!"reader positioned on node {p} reads {e.arg 0}"
       let want := tokData p (g.s.m.data p)
       if e.arg 1 != want then P.fail s!"payload of n{p} read as {e.arg 1}, model: {want}"
